@@ -65,7 +65,7 @@ Definition valid_sid (st : bstate) (sid : Z) : bool :=
 (* the handle a read op works on *)
 Definition op_handle (o : op) : option Z :=
   match o with
-  | ORoot | ORLimit | OReset _ => None
+  | ORoot | ORLimit | OReset _ | OResetLimit _ | OUnread _ => None
   | OSPtr h _ | OHasPtr h _ | OUint h _ _ | OBit h _ | OLStruct h _ | OPLAt h _ | OUintAt h _ _
   | OBitAt h _ | OText h | OData h | OInfo h | OWalk h _ _ _ => Some h
   end.
